@@ -109,6 +109,19 @@ pub fn gen_layout(rng: &mut Rng, with_backing: bool, allow_compressed: bool) -> 
         states.push(st);
         tok_base.push(0x7000_0000_0000 + ((g as u64) << 16));
     }
+    // holes: every guest cluster of some L2 tables unallocated, so that their L1 entries are 0
+    // (derived from the layout, not drawn: the random stream of older seeds stays as it was)
+    let l2e = (cs / 8) as usize;
+    if ng > l2e && (size >> cb) % 3 != 0 {
+        let tables = ng.div_ceil(l2e);
+        for t in 0..tables {
+            if (t + (size >> cb) as usize) % 2 == 0 {
+                for g in t * l2e..((t + 1) * l2e).min(ng) {
+                    states[g] = GState::Unalloc;
+                }
+            }
+        }
+    }
     Layout {
         cb,
         ro,
